@@ -131,8 +131,18 @@ func c12Kill(c *vk.Ctx, rng *rand.Rand) int {
 				c.Violation("loaded-after-kill-with-partial-data", fmt.Sprintf("killed after %v; the restarted validator treats the location as loaded with revoked={%s}; the complete lists are {xz} and {yz}", delay, got),
 					map[string]any{"delay_ms": delay.Milliseconds(), "after_restart": res})
 			}
-			if l := w.Listing(); len(l.Temps) > 0 {
+			l := w.Listing()
+			if len(l.Temps) > 0 {
 				c.Violation("temporary-artefacts-survive-startup:after-kill", fmt.Sprintf("%v", l.Temps), map[string]any{"delay_ms": delay.Milliseconds()})
+			}
+			var left []string
+			for _, n := range l.Other {
+				if _, ok := restingNames.Load(n); !ok {
+					left = append(left, n)
+				}
+			}
+			if len(left) > 0 {
+				c.Violation("leftover-of-interrupted-run-survives-startup:after-kill", fmt.Sprintf("%v", left), map[string]any{"delay_ms": delay.Milliseconds()})
 			}
 			w.Cleanup()
 		}
